@@ -1,7 +1,9 @@
 (* Model of the request decoders of api/rpc/encoder.go (unmarshalLogEvent, unmarshalQueryRequest),
    api/rpc/ingestor.go (wpIterator.init / Get / Next and the drain loop of its consumer) and
    pkg/model/logevent.go (LogEvent.Unmarshal), in checked style: every `buf[nn:]` is a checked
-   slice.  [g] is the guard flag of model/DecXBinary.v (false = the code on this tree).
+   slice.  [g] is the guard flag of model/DecXBinary.v (true = the code: the length-prefixed fields are read
+   through utils.UnmarshalBytes / UnmarshalString; false = the earlier code, which called the dependency's
+   xbinary.UnmarshalBytes / UnmarshalString directly).
    Definitions only. *)
 From LR Require Import lib.Base lib.DecLib model.DecXBinary model.DecKV model.DecFields.
 
